@@ -30,6 +30,10 @@ CHECKS = {
    text="Has, First and Locate are modelled in Coq as separately defined evaluators (depth-first search with early exit; selection that carries normalized paths) over the fragment denotation of C05. Proved for all paths and data: Has is true exactly when Get is non-empty, First is the head of Get's result list (hence a member), and the values Locate points at are exactly Get's results in order. The real Has, FirstFound, Locate (every reported path re-evaluated with Get), Expr.Walk, GetNodes/FirstNode/Get on gen data, Get/Has on Keyed+Indexed wrappers and typed slices are compared with the extracted first_spec/has_spec/locate_spec/get_spec on seeded paths x trees. One genuine disagreement (slice normalisation of Locate/Walk, pinned by tests) is a recorded known finding, decided by an extracted specification variant.",
    technique="Coq proofs relating separately modelled evaluators to the Get denotation + correspondence of eight real evaluators and four data representations",
    design='6/C11'),
+ 'C14': dict(
+   text="Proved in Coq: the string-literal codec of JSONPath text (jp.AppendString with the escape classes regenerated from jp/string.go, read back by the model of readStr/readEscStr) is the identity on every string of bytes below 0x80 for both quote characters in any following context. Decided by correspondence: jp.AppendString vs the model on all 1-byte and 896 2-byte ASCII strings; seeded expressions (keys mixing quotes, backslashes, control, punctuation, non-ASCII) through String()/BracketString() and seeded equation trees through Equation/Script/Filter String(): the text must parse, print identically again, and evaluate as the ORIGINAL tree denotes (get_spec / script_match of C05/C12 as oracle). One genuine defect pinned by a test is a recorded known finding.",
+   technique="Coq proof of the string-literal round trip + print/parse/evaluate correspondence against the Coq denotation of the original tree",
+   design='6/C14'),
  'C13': dict(
    text="Set, Del, Remove and Modify are specified in Coq as functional updates at the normalized paths the expression locates. Proved for every normalized path, update function and document: effect (afterwards the location holds the new value) and frame (every location diverging from the updated one keeps its value). The real Set/SetOne/Del/DelOne/Remove/RemoveOne/Modify/ModifyOne on simple and gen data are compared with the extracted specifications (the *One forms against the per-location candidates) on seeded paths x trees x values whenever the model says the request needs no element creation and the selected locations do not contain one another; panics are violations. Two genuine defects are recorded as known findings, each decided by an extracted specification variant.",
    technique="Coq proofs of frame and effect for path updates + correspondence of eight mutation entry points against extracted update specifications",
